@@ -6,24 +6,34 @@ package rocks
 // over the wrapper model (engine) or the real library (native).
 
 import (
+	"fmt"
 	"io/ioutil"
 	"os"
 
 	"github.com/bbva/qed/rocksdb"
 	"github.com/bbva/qed/storage"
 	"github.com/bbva/qed/zzverif/c14"
+	"github.com/bbva/qed/zzverif/models"
 	"github.com/bbva/qed/zzverif/rocksmodel"
 	"github.com/bbva/qed/zzverif/rt"
 )
 
+// zzOpenModelStoreAt: under the engine, what NewRocksDBStore(path) builds, over the wrapper model.
+func zzOpenModelStoreAt(path string) *RocksDBStore {
+	s := &RocksDBStore{path: path, db: &rocksdb.DB{}, ro: &rocksdb.ReadOptions{}, wo: &rocksdb.WriteOptions{},
+		backupEngine: &rocksdb.BackupEngine{}, restoreOpts: &rocksdb.RestoreOptions{}}
+	for i := 0; i < 5; i++ {
+		s.cfHandles = append(s.cfHandles, &rocksdb.ColumnFamilyHandle{})
+	}
+	rocksmodel.SetPath(s.db, path)
+	rocksmodel.Register(s.db, s.cfHandles)
+	return s
+}
+
 func zzOpenStore() (*RocksDBStore, func()) {
 	if rt.Symbolic() {
 		rocksmodel.Reset()
-		s := &RocksDBStore{db: &rocksdb.DB{}, ro: &rocksdb.ReadOptions{}, wo: &rocksdb.WriteOptions{}}
-		for i := 0; i < 5; i++ {
-			s.cfHandles = append(s.cfHandles, &rocksdb.ColumnFamilyHandle{})
-		}
-		return s, func() {}
+		return zzOpenModelStoreAt("db"), func() {}
 	}
 	dir, err := ioutil.TempDir("", "zzrocks")
 	if err != nil {
@@ -74,4 +84,208 @@ func ZZC14RocksTwin() {
 	s.Mutate([]*storage.Mutation{{Table: storage.HistoryTable, Key: []byte{1}, Value: []byte{2}}}, nil)
 	kv, err := s.Get(storage.HistoryTable, []byte{1})
 	rt.Assert(err != nil || kv.Value[0] != 2, "twin")
+}
+
+// ---- C16, RocksDB half: the real RocksDBStore backup glue (Backup / GetBackupsInfo /
+// DeleteBackup / RestoreFromBackup / RestoreFromLatestBackup) over the wrapper model
+// (engine) or the real BackupEngine (native). ----
+
+type zzGhostBackup struct {
+	id      int64
+	meta    string
+	content *models.MemStore
+	deleted bool
+}
+
+func zzSameContent(s *RocksDBStore, ref *models.MemStore, label string) {
+	for _, t := range []storage.Table{storage.DefaultTable, storage.HyperTable, storage.HyperCacheTable, storage.HistoryTable, storage.FSMStateTable} {
+		want := ref.Dump(t)
+		r := s.GetAll(t)
+		buf := make([]*storage.KVPair, len(want)+2)
+		n, err := r.Read(buf)
+		r.Close()
+		rt.Assert(err == nil, label+":scan-ok")
+		rt.Assert(n == len(want), label+":same-number-of-entries")
+		if n != len(want) {
+			continue
+		}
+		for i := 0; i < n; i++ {
+			rt.Assert(string(buf[i].Key) == string(want[i].Key), label+":same-keys")
+			rt.Assert(string(buf[i].Value) == string(want[i].Value), label+":same-values")
+		}
+	}
+}
+
+func zzCheckRocksListing(s *RocksDBStore, ghosts []zzGhostBackup, label string) {
+	infos := s.GetBackupsInfo()
+	live := 0
+	for _, g := range ghosts {
+		if !g.deleted {
+			live++
+		}
+	}
+	rt.Assert(len(infos) == live, label+":one-line-per-existing-backup")
+	for _, g := range ghosts {
+		found := 0
+		for _, in := range infos {
+			if in != nil && in.ID == g.id {
+				found++
+				rt.Assert(in.Metadata == g.meta, label+":metadata-as-given")
+			}
+		}
+		if g.deleted {
+			rt.Assert(found == 0, label+":deleted-backup-is-gone")
+		} else {
+			rt.Assert(found == 1, label+":existing-backup-listed-once")
+		}
+	}
+}
+
+func ZZC16Rocks() {
+	s, done := zzOpenStore()
+	defer done()
+	ghost := models.NewMemStore()
+	var ghosts []zzGhostBackup
+	var dirs []string
+	defer func() {
+		for _, d := range dirs {
+			os.RemoveAll(d)
+		}
+	}()
+	steps := 1 + rt.Choose("steps", rt.Param("STEPS", 3))
+	alpha := rt.Param("ALPHA", 3)
+	nextKey := 0
+	for k := 0; k < steps; k++ {
+		switch rt.Choose(fmt.Sprintf("op%d", k), 3) {
+		case 0: // a write (one batch over one or two tables)
+			var muts []*storage.Mutation
+			nm := 1 + rt.Choose(fmt.Sprintf("muts%d", k), 2)
+			for j := 0; j < nm; j++ {
+				t := []storage.Table{storage.HistoryTable, storage.HyperTable, storage.FSMStateTable, storage.HyperCacheTable, storage.DefaultTable}[rt.Choose(fmt.Sprintf("table%d.%d", k, j), rt.Param("TABLES", 3))]
+				key := []byte{byte(rt.Choose(fmt.Sprintf("key%d.%d", k, j), alpha))}
+				val := []byte{byte(0x10 + nextKey)}
+				nextKey++
+				muts = append(muts, &storage.Mutation{Table: t, Key: key, Value: val})
+			}
+			rt.Assert(s.Mutate(muts, []byte{byte(k)}) == nil, "write-ok")
+			ghost.Mutate(muts, nil)
+		case 1: // a backup
+			if len(ghosts) >= rt.Param("BACKUPS", 2) {
+				continue
+			}
+			meta := fmt.Sprintf("%d", 100+k)
+			var err error
+			if !rt.NoPanic(func() { err = s.Backup(meta) }, "backup") {
+				return
+			}
+			rt.Assert(err == nil, "backup-ok")
+			var id int64
+			fresh := 0
+			for _, in := range s.GetBackupsInfo() {
+				known := false
+				for _, g := range ghosts {
+					if g.id == in.ID {
+						known = true
+					}
+				}
+				if !known {
+					id = in.ID
+					fresh++
+				}
+			}
+			rt.Assert(fresh == 1, "new-backup-is-listed")
+			if fresh != 1 {
+				return
+			}
+			ghosts = append(ghosts, zzGhostBackup{id: id, meta: meta, content: ghost.Clone()})
+			zzCheckRocksListing(s, ghosts, "after-backup")
+		case 2: // delete a backup (an existing one, or an identifier no backup has)
+			if len(ghosts) == 0 {
+				continue
+			}
+			d := rt.Choose(fmt.Sprintf("delete%d", k), len(ghosts)+1)
+			if d == len(ghosts) {
+				// any 32-bit identifier that no existing backup has
+				x := rt.U32(fmt.Sprintf("unknown-id%d", k))
+				for _, g := range ghosts {
+					rt.Assume(g.deleted || int64(x) != g.id)
+				}
+				rt.Assert(s.DeleteBackup(x) != nil, "delete-unknown-backup-refused")
+			} else if !ghosts[d].deleted {
+				rt.Assert(s.DeleteBackup(uint32(ghosts[d].id)) == nil, "delete-backup-ok")
+				ghosts[d].deleted = true
+			} else {
+				rt.Assert(s.DeleteBackup(uint32(ghosts[d].id)) != nil, "delete-twice-refused")
+			}
+			zzCheckRocksListing(s, ghosts, "after-delete")
+		}
+	}
+	zzCheckRocksListing(s, ghosts, "final")
+	if rt.Symbolic() {
+		rt.Assert(rocksmodel.OpenInfos == 0, "every-backup-info-handle-released")
+	}
+	if len(ghosts) == 0 {
+		return
+	}
+	// restore one backup (by identifier, or "the latest") into a new directory and open a store there
+	w := rt.Choose("restore-which", len(ghosts)+1)
+	dir := "restored"
+	if !rt.Symbolic() {
+		d, err := ioutil.TempDir("", "zzrestore")
+		if err != nil {
+			panic(err)
+		}
+		dirs = append(dirs, d)
+		dir = d + "/db"
+	}
+	var want *zzGhostBackup
+	var err error
+	if w == len(ghosts) {
+		for i := range ghosts {
+			if !ghosts[i].deleted {
+				want = &ghosts[i]
+			}
+		}
+		err = s.RestoreFromLatestBackup(dir, dir)
+		if want == nil {
+			rt.Assert(err != nil, "restore-latest-without-backups-refused")
+			return
+		}
+	} else {
+		want = &ghosts[w]
+		err = s.RestoreFromBackup(uint32(want.id), dir, dir)
+		if want.deleted {
+			rt.Assert(err != nil, "deleted-backup-cannot-be-restored")
+			return
+		}
+	}
+	rt.Assert(err == nil, "restore-ok")
+	if err != nil {
+		return
+	}
+	var r *RocksDBStore
+	if rt.Symbolic() {
+		r = zzOpenModelStoreAt(dir)
+	} else {
+		r, err = NewRocksDBStore(dir, 0)
+		if err != nil {
+			panic(err)
+		}
+		defer r.Close()
+	}
+	zzSameContent(r, want.content, "restored")
+	// writes to the restored store do not reach the original, and the original is what it was
+	r.Mutate([]*storage.Mutation{{Table: storage.HistoryTable, Key: []byte{0x7f}, Value: []byte{0x7f}}}, nil)
+	zzSameContent(s, ghost, "original")
+	rt.Reach("restored-and-compared")
+}
+
+// ZZC16RocksTwin: reachability witness.
+func ZZC16RocksTwin() {
+	s, done := zzOpenStore()
+	defer done()
+	s.Mutate([]*storage.Mutation{{Table: storage.HistoryTable, Key: []byte{1}, Value: []byte{2}}}, nil)
+	s.Backup("7")
+	infos := s.GetBackupsInfo()
+	rt.Assert(len(infos) != 1 || infos[0].Metadata != "7", "twin")
 }
